@@ -80,6 +80,7 @@ type rsub struct {
 type c03Ctx struct {
 	tables    map[string]*rrel
 	unspec    bool
+	tooBig    bool
 	recursive int
 }
 
@@ -524,6 +525,10 @@ func (c *c03Ctx) evalSource(s *rsource, outer *renv) *rrel {
 		}
 		r := c.evalSource(s.r, outer)
 		out := &rrel{cols: append(append([]rcol{}, l.cols...), r.cols...)}
+		if len(l.rows)*len(r.rows) > 250000 {
+			c.unspec, c.tooBig = true, true // too large for the nested-loop reference: skipped, not judged
+			return out
+		}
 		// join columns for USING / NATURAL
 		var shared []string
 		if s.jmode == "using" {
@@ -1079,8 +1084,12 @@ func c03Case(w *core.Worker, i int) {
 		q := genQueryC03(r)
 		sql := q.SQL()
 		qtexts = append(qtexts, sql)
-		ctx.unspec = false
+		ctx.unspec, ctx.tooBig = false, false
 		want := ctx.evalQuery(q)
+		if ctx.tooBig {
+			w.Count("queries_skipped_too_big", 1)
+			continue
+		}
 		res := s.Exec(sql)
 		if res.Err != nil || len(res.Views) != 1 {
 			if ctx.unspec {
